@@ -171,8 +171,9 @@ M('c14-sync-read-until-empty-buffer-cursor-kept', 'C14', 'R9', S,
 M('c14-sync-read-until-next-chunk-cursor-kept', 'C14', 'R9', S,
   "                result.append(self._buffer)\n            self._buffer_len = next_chunk_len\n            self._buffer_pos = 0\n",
   "                result.append(self._buffer)\n            self._buffer_len = next_chunk_len\n")
-M('c14-sync-read-refill-cursor-zero', 'C14', 'R9', S,
-  "        self._buffer_pos = read_size\n", "        self._buffer_pos = 0\n")
+M('c14-sync-read-refill-cursor-zero', 'C14', 'R9', S,          # (shape after the fix of F20, 96ab83d)
+  "        self._buffer_pos = min(read_size, self._buffer_len)\n        return result + self._buffer[: self._buffer_pos]\n",
+  "        self._buffer_pos = 0\n        return result + self._buffer[: min(read_size, self._buffer_len)]\n")
 M('c14-sync-fill-trim-cursor-kept', 'C14', 'R9', S,
   "                    read_size\n                )\n                self._buffer_pos = 0\n", "                    read_size\n                )\n")
 M('c14-sync-finalize-trim-cursor-kept', 'C14', 'R9', S,
@@ -266,3 +267,13 @@ M('c14-sync-read-ignores-size', 'C14', 'R12', S,
 M('c14-sync-read-until-returns-byte-behind-cap', 'C14', 'R12', S,
   "            return self._read_until(delimiter, read_size, consume_delimiter)\n\n",
   "            return self._read_until(delimiter, read_size, consume_delimiter) + self.peek(1)\n\n")
+
+# ------------------------------------------------------------------ R13 the cursor stays inside the buffer (finding F20, fixed in 96ab83d)
+# a cursor stored after the buffer was replaced by freshly read data must be clamped to / guarded by what the source delivered
+_CLAMPED = "        self._buffer_pos = min(read_size, self._buffer_len)\n        return result + self._buffer[: self._buffer_pos]\n"
+M('c14-sync-read-refill-cursor-not-clamped', 'C14', 'R13', S,          # reverts the fix of F20
+  _CLAMPED, "        self._buffer_pos = read_size\n        return result + self._buffer[:read_size]\n")
+M('c14-sync-read-refill-cursor-clamped-to-chunk-size', 'C14', 'R13', S,          # what was asked for, not what was delivered
+  _CLAMPED, "        self._buffer_pos = min(read_size, self._chunk_size)\n        return result + self._buffer[: self._buffer_pos]\n")
+M('c14-sync-read-refill-cursor-set-before-length-known', 'C14', 'R13', S,
+  _CLAMPED, "        self._buffer_pos = read_size\n        return result + self._buffer[: min(read_size, self._buffer_len)]\n")
